@@ -13,12 +13,13 @@ REQUIRE_SERVICE_HOOK = True
 FORMAT = ("kinds 1..3 [kind 1=AimdController 2=Aimd 3=Vegas; p0..p6 (initial, min, max, increase_by|alpha, "
           "dec_num|beta, dec_den, latency threshold ns); npre; (code arg)*; nthreads; {ncalls; (code arg)*}*; "
           "nsched; thread-id*] calls 0 record_success(arg: latency ns) 1 record_failure 2 record_successes(arg) "
-          "3 limit(); each schedule entry = ONE atomic operation -> per entry [op 0 skip/1 load/2 store/3 cas/"
+          "3 limit() 4 reset() (kind 1); each schedule entry = ONE atomic operation -> per entry [op 0 skip/1 load/2 store/3 cas/"
           "4 rmw; return value of the call completed by this step or -1; limit()] after the prelude's return values, per worker [steps; results], "
           "[limit()].  kind 4 [4; initial; min; max; increase_by; dec_num; dec_den; threshold_ms; (op a b)*] "
           "op 1 poll_ready 2 call a 3 poll a 4 complete a b(0 ok 1 err 2 panic) 5 drop a 6 advance a ms "
           "7 inner readiness a(0 ready 1 pending 2 err) 8 call a with panicking inner.call() 9 algorithm()."
-          "record_failure() 10 algorithm().record_success(0) (feedback not caused by this service's calls) -> per event "
+          "record_failure() 10 algorithm().record_success(0) (feedback not caused by this service's calls) 11 poll_ready by parked caller a (own clone + own waker) "
+          "12 was a's waker woken since its last check (91/90) 13 caller a goes away (92) -> per event "
           "[code; in_flight(); limit()] + after dropping everything [probe poll_ready code; in_flight(); limit()]; "
           "codes 10 Pending(inner) 11 Ready 12 Err 13 Pending(at limit) 20 created 21 id in use 26 inner.call() "
           "panicked 30 Pending 31 Ok 32 Err 35 panicked 39 not alive 40 50 dropped 59 nothing 60 70 80 81.  "
@@ -62,7 +63,7 @@ ASSUMPTIONS = ["0 <= min_limit <= max_limit <= usize::MAX = 2^64-1 (AimdControll
                "service scripts use limits far below 2^61"]
 U64 = (1 << 64) - 1
 
-S, F, N, LIM = 0, 1, 2, 3
+S, F, N, LIM, RESET = 0, 1, 2, 3, 4      # RESET: AimdController::reset(), kind 1 only
 # kind 5 call codes
 RDY, CALL, FIN, CPANIC = 0, 1, 2, 3
 
@@ -70,7 +71,7 @@ RDY, CALL, FIN, CPANIC = 0, 1, 2, 3
 def model_input(s, impl_trace):
     """kind 5 needs the service's in_flight / current_limit atomics under the scheduler; a driver built against
     a tree without that hook answers [-5] and the model is asked the same question (kind 55)"""
-    if s and s[0] == 5 and list(impl_trace) == [-5]:
+    if s and s[0] == 5 and list(impl_trace) == [-5] and not REQUIRE_SERVICE_HOOK:
         return [55] + list(s[1:])
     return s
 
@@ -117,8 +118,30 @@ def parse(s):
     return kind, params, pre, progs, s[pos:pos + ns]
 
 
+def r53(x):
+    """(x as f64) for 0 <= x < 2^64 as an integer: round to nearest even at 53 bits (= Model.Budget.r53)"""
+    if x < 1 << 53:
+        return x
+    e = x.bit_length() - 53
+    p = 1 << e
+    q, r = divmod(x, p)
+    if 2 * r > p or (2 * r == p and q % 2 == 1):
+        q += 1
+    return q * p
+
+
+assert all(r53(x) == int(float(x)) for x in [(1 << 64) - 1, (1 << 64) - 2, (1 << 53) + 3, (1 << 53) + 1, (1 << 63) + 1024,
+                                             (1 << 63) + 1025, (1 << 60) + (1 << 59), 12345678901234567890, 3 << 61])
+
+
 def float_exact(num, den, mx):
+    """is Model.Budget.dec_q num den = ((x as f64) * (num/den)) as usize for all x <= mx?  Factors 0, 1 and
+    1/2^k are exact for EVERY x (rounding of x modelled by r53, product by a power of two exact)"""
     if den == 0:
+        return False
+    if num == 0 or num == den or (num == 1 and den in (2, 4, 8)):
+        return True
+    if mx > 1000:
         return False
     f = num / den
     return all(int(float(x) * f) == (x * num) // den for x in range(0, mx + 1))
@@ -200,6 +223,38 @@ def corpus():
                        (5, 0, 0), (5, 1, 0), (1, 0, 0)], 7))
     out.append(mk_svc([4, 1, 8, 1, 1, 2, 10],
                       [(2, 0, 0), (6, 11, 0), (4, 0, 0), (3, 0, 0), (2, 1, 0), (6, 10, 0), (4, 1, 0), (3, 1, 0)], 7))
+    # two callers parked by a refusal at limit 1, the first goes away, the call in flight completes: the second
+    # must learn that the slot is free (a wake handed only to the longest-waiting, departed, caller is lost)
+    out.append(mk_svc([1, 1, 1, 1, 1, 2, 100], [(1, 0, 0), (2, 0, 0), (11, 0, 0), (11, 1, 0), (13, 0, 0), (4, 0, 0), (3, 0, 0),
+                                                (12, 1, 0), (11, 1, 0)]))
+    out.append(mk_svc([2, 1, 2, 1, 1, 2, 100], [(2, 0, 0), (2, 1, 0), (11, 0, 0), (11, 1, 0), (11, 2, 0), (13, 0, 0), (13, 1, 0),
+                                                (5, 0, 0), (12, 2, 0), (5, 1, 0), (12, 2, 0), (11, 2, 0)]))
+    # ---- review 2 ----
+    # record_failure's upper clamp with a factor <= 1: (2^64-2) as f64 = 2^64, cast saturates to usize::MAX > max;
+    # 2^53+3 rounds to 2^53+4 > max (an upper clamp applied only for factors > 1 stores a limit above max)
+    for mxl in (U64 - 1, (1 << 53) + 3):
+        out.append(mk(1, [mxl, 0, mxl, 1, 1, 1], [(F, 0), (LIM, 0)], [[(F, 0), (LIM, 0)], [(S, 0), (F, 0)]], [0, 1, 0, 1, 0, 1, 1]))
+        out.append(mk(2, [mxl, 1, mxl, 1, 1, 1, 1000], [(S, 1001), (LIM, 0)], [[(F, 0), (LIM, 0)], [(S, 5), (S, 2000)]], [0, 1, 0, 1, 0, 1, 1]))
+    out.append(mk(1, [1 << 60, 1, U64, 1 << 59, 1, 2], [(F, 0), (S, 0)], [[(F, 0), (LIM, 0)], [(S, 0), (F, 0)]], [0, 1, 0, 1, 0, 1, 1]))
+    # AimdController::reset() goes back to the CLAMPED configured initial limit (500 with max 10 -> 10; 0 with min 2 -> 2)
+    out.append(mk(1, [500, 1, 10, 1, 1, 2], [(F, 0), (RESET, 0), (LIM, 0)], [[(RESET, 0), (LIM, 0)], [(F, 0), (S, 0)]], [0, 1, 0, 1, 0, 1]))
+    out.append(mk(1, [0, 2, 9, 1, 1, 2], [(S, 0), (RESET, 0), (LIM, 0)], [[(S, 0), (RESET, 0)], [(F, 0), (LIM, 0)]], [0, 1, 1, 0, 0, 1]))
+    # Vegas::new / the builder clamp the initial limit from BOTH sides (initial 0 or below min -> min)
+    out.append(mk(3, [0, 2, 5, 3, 6], [(LIM, 0)], [[(S, 1024), (LIM, 0)], [(F, 0), (LIM, 0)]], [0, 1, 0, 1] * 3))
+    out.append(mk(3, [1, 4, 8, 3, 6], [(LIM, 0), (F, 0), (LIM, 0)], [[(S, 1024)], [(LIM, 0)]], [0, 1, 0, 0]))
+    for k in (6, 8):
+        out.append(mk_svc([0, 2, 5, 3, 6], [(1, 0, 0), (2, 0, 0), (2, 1, 0), (1, 0, 0), (9, 0, 0), (1, 0, 0), (5, 0, 0), (1, 0, 0)], k))
+        out.append(mk_svc([1, 4, 8, 3, 6], [(1, 0, 0), (2, 0, 0), (6, 2, 0), (4, 0, 0), (3, 0, 0), (1, 0, 0)], k))
+    # limits beyond tokio's Semaphore::MAX_PERMITS = usize::MAX >> 3 through the service (3fb3ccc: it panicked in
+    # Semaphore::new at construction, or in add_permits in the middle of a call after a few upward moves)
+    big = 1 << 60
+    ok = lambda a: [(1, 0, 0), (2, a, 0), (4, a, 0), (3, a, 0)]
+    out.append(mk_svc([big, 1, U64, big, 1, 2, 1000], [e for a in range(10) for e in ok(a)], 7))      # notes/fix-demos/adaptive_big_limit.rs
+    out.append(mk_svc([big, 1, big, 1 << 59, 1, 2, 1000],
+                      [(1, 0, 0), (2, 0, 0), (4, 0, 1), (3, 0, 0)] + ok(1) + [(1, 0, 0), (2, 2, 0), (4, 2, 1), (3, 2, 0)] + ok(3) + ok(4), 4))
+    out.append(mk_svc([U64, 1, U64, 1, 0, 1, 1000], ok(0) + [(9, 0, 0), (1, 0, 0)] + ok(1), 4))          # construction above MAX_PERMITS
+    out.append(mk_svc([(U64 >> 3) + 1, 1, U64, 1, 1, 2, 1000], ok(0) + ok(1), 7))
+    out.append(mk_svc([U64 >> 3, 1, U64, 1, 1, 2, 1000], ok(0) + ok(1) + [(9, 0, 0)] + ok(2) + ok(3), 4))
     # ---- clones of one service on worker threads (kind 5; the leading -1 entry only takes a snapshot)
     # limit 1: worker 0 is admitted and calls; worker 1's check, made while that call is in flight, is refused
     out.append(mk(5, [1, 1, 1, 1, 1, 2], [], [[(RDY, 0), (CALL, 0), (FIN, 0)], [(RDY, 0), (RDY, 0)]],
@@ -248,15 +303,17 @@ def rand_ctl_cfg(rng):
 
 RTTS = [1 << k for k in range(10, 21)]
 
-BIGLIM = [U64, U64 - 1, 1 << 63, (1 << 53) + 1, 1 << 32]
+BIGLIM = [U64, U64 - 1, U64 - 1, 1 << 63, (1 << 53) + 1, (1 << 53) + 3, (1 << 53) + 3, 1 << 32, 1 << 60]
+BIGFACT = [(0, 1), (1, 1), (1, 1), (1, 2), (1, 4)]
 
 
 def rand_big(rng, kind, nth):
     """limits at the usize boundary: the saturating adds/multiplications of the controller and of Vegas;
-    decrease factor 0 (exact in binary64 for every limit)"""
+    decrease factors 0, 1 and 1/2^k (exact for every limit: at factor 1 the f64 round trip of a limit above 2^53
+    can exceed max -- the reason for the upper clamp in record_failure)"""
     mx = rng.choice(BIGLIM)
     mn = rng.choice([0, 1, mx - 1, mx - 2, mx])
-    init = rng.choice([mx, mx, mx - 1, mn, U64])
+    init = rng.choice([mx, mx, mx - 1, mn, U64, 0])
     if kind == 3:
         params = [init, mn, mx, rng.choice([0, 1, 3]), rng.choice([3, 6, 1])]
         if rng.random() < 0.6:    # equal RTTs: increase against max
@@ -269,11 +326,12 @@ def rand_big(rng, kind, nth):
         per_call = 8
     else:
         inc = rng.choice([0, 1, 2, 1 << 62, U64, mx])
-        params = [init, mn, mx, inc, 0, 1] + ([1000] if kind == 2 else [])
+        num, den = rng.choice(BIGFACT)
+        params = [init, mn, mx, inc, num, den] + ([1000] if kind == 2 else [])
         if kind == 1:
-            alpha = [(S, 0), (S, 0), (F, 0), (N, rng.choice([0, 1, 3, 1000, U64])), (LIM, 0)]
+            alpha = [(S, 0), (F, 0), (F, 0), (N, rng.choice([0, 1, 3, 1000, U64])), (LIM, 0), (RESET, 0)]
         else:
-            alpha = [(S, 500), (S, 1000), (S, 1001), (F, 0), (LIM, 0)]
+            alpha = [(S, 500), (S, 1001), (S, 1001), (F, 0), (LIM, 0)]
         pre = [rng.choice(alpha[:3]) for _ in range(rng.choice([0, 0, 2]))]
         per_call = 3
     progs = [[rng.choice(alpha) for _ in range(rng.randint(1, 5))] for _ in range(nth)]
@@ -377,7 +435,7 @@ def svc_feedback(evs):
             live.discard(a)
         elif op == 6:
             now += max(a, 0)
-        elif op == 8 or op not in (1, 7, 9, 10):
+        elif op == 8 or op not in (1, 7, 9, 10, 11, 12, 13):
             used.add(a)
         elif op == 9:
             fb.append(("err",))
@@ -422,8 +480,8 @@ def vegas_exact(params, evs):
 
 def rand_vegas_service(rng, kind):
     mx = rng.choice([2, 3, 5, 8])
-    mn = rng.choice([0, 1, 1, mx - 1])
-    init = rng.choice([mn, mx, max(mn, 2), (mn + mx) // 2])
+    mn = rng.choice([0, 1, 1, 2, mx - 1])
+    init = rng.choice([mn, mx, max(mn, 2), (mn + mx) // 2, 0, max(mn - 1, 0), mx + 2])
     alpha, beta = rng.choice([(3, 6), (1, 3), (0, 1), (3, 3)])
     base = rng.choice([1, 2, 4, 8])
     lats = [base] * 4 + [base * 2, base * 4, base * 16, base * 64, 0]
@@ -489,6 +547,71 @@ def rand_clones(rng):
     return mk(5, [init, mn, mx, rng.choice([1, 1, 2]), num, den], pre, progs, [-1] + rand_sched(rng, nth, total))
 
 
+def parked_service(rng, kind):
+    """callers parked by a refusal at the limit (own clone, own waker); some go away; slots are freed by
+    completions, drops, panics or by the limit moving up; then every parked caller is asked whether it was woken"""
+    mx = rng.choice([1, 2, 3, 4])
+    mn = rng.choice([0, 1, 1])
+    init = rng.choice([mx, mx, max(mn, 1)])
+    if kind in (6, 8):
+        params = [init, mn, mx, 3, 6]
+    else:
+        params = [init, mn, mx, rng.choice([1, 2]), rng.choice([1, 0, 3]), rng.choice([2, 1, 4]), 100000]
+        if not float_exact(params[4], params[5], mx):
+            params[4], params[5] = 1, 2
+    evs, nxt = [], 0
+    for _ in range(rng.choice([init, init, init + 1, max(init - 1, 0)])):
+        evs += [(1, 0, 0), (2, nxt, 0)]; nxt += 1
+    np = rng.randint(1, 4)
+    for p in range(np):
+        evs.append((11, p, 0))
+        if rng.random() < 0.3:
+            evs.append((12, p, 0))
+    gone = [p for p in range(np) if rng.random() < 0.35]
+    for p in gone:
+        evs.append((13, p, 0))
+    for _ in range(rng.randint(1, 4)):
+        x = rng.random()
+        if x < 0.5 and nxt > 0:
+            a = rng.randrange(nxt)
+            evs += rng.choice([[(5, a, 0)], [(4, a, 0), (3, a, 0)], [(4, a, 2), (3, a, 0)], [(4, a, 1), (3, a, 0)]])
+        elif x < 0.7:
+            evs.append((10, 0, 0))
+        elif x < 0.8:
+            evs.append((9, 0, 0))
+        else:
+            evs.append((6, 1, 0))
+    for p in range(np):
+        evs.append((12, p, 0))
+    for p in range(np):
+        if p not in gone and rng.random() < 0.7:
+            evs.append((11, p, 0))
+    if kind in (6, 8) and not vegas_exact(params, evs):
+        return None
+    return mk_svc(params, evs, kind)
+
+
+def big_limit_service(rng):
+    mxl = rng.choice([1 << 60, U64 >> 3, (U64 >> 3) + 1, 1 << 61, 1 << 63, U64])
+    init = rng.choice([mxl, mxl, 1 << 60, 1 << 59])
+    inc = rng.choice([1 << 59, 1 << 60, 1 << 58, 1])
+    num, den = rng.choice([(1, 2), (1, 2), (0, 1), (1, 1), (1, 4)])
+    evs, nxt = [], 0
+    for _ in range(rng.randint(3, 14)):
+        if nxt >= 24:
+            break
+        x = rng.random()
+        evs.append((1, 0, 0)); evs.append((2, nxt, 0))
+        if x < 0.75:
+            evs += [(4, nxt, rng.choice([0, 0, 1])), (3, nxt, 0)]
+        elif x < 0.85:
+            evs.append((5, nxt, 0))
+        nxt += 1
+        if rng.random() < 0.2:
+            evs.append((rng.choice([9, 10]), 0, 0))
+    return mk_svc([init, rng.choice([0, 1, 1 << 58]), mxl, inc, num, den, 1000], evs, rng.choice([4, 4, 7]))
+
+
 def generate(rng, tier):
     out = []
     thorough = tier == "thorough"
@@ -543,7 +666,7 @@ def generate(rng, tier):
             continue
         if kind == 1:
             params = rand_ctl_cfg(rng)
-            alpha = [(S, 0), (S, 0), (F, 0), (F, 0), (N, rng.choice([0, 1, 3, 1000])), (LIM, 0)]
+            alpha = [(S, 0), (S, 0), (F, 0), (F, 0), (N, rng.choice([0, 1, 3, 1000])), (LIM, 0), (RESET, 0)]
             pre = [rng.choice(alpha[:4]) for _ in range(rng.choice([0, 0, 3]))]
         elif kind == 2:
             params = rand_ctl_cfg(rng) + [1000]
@@ -552,7 +675,8 @@ def generate(rng, tier):
         else:
             mx = rng.choice([2, 3, 5, 20, 100])
             mn = rng.choice([0, 1, mx // 2, mx - 1])
-            params = [rng.choice([mn, mx, mx, (mn + mx) // 2, mx + 1]), mn, mx, rng.choice([0, 1, 3]), rng.choice([3, 6, 1])]
+            params = [rng.choice([mn, mx, mx, (mn + mx) // 2, mx + 1, 0, max(mn - 1, 0)]), mn, mx, rng.choice([0, 1, 3]),
+                      rng.choice([3, 6, 1])]
             mode = rng.randrange(3)
             if mode == 0:      # all RTTs equal: queue estimate 0 -> increase (pushes against max)
                 base = rng.choice(RTTS[:6])
@@ -576,6 +700,13 @@ def generate(rng, tier):
         out.append(rand_service(rng))
     for _ in range(8000 if thorough else 600):
         out.append(ext_feedback_service(rng))
+    for _ in range(6000 if thorough else 500):
+        sc = parked_service(rng, rng.choice([4, 4, 4, 7, 6]))
+        if sc is not None:
+            out.append(sc)
+    # limits around and above Semaphore::MAX_PERMITS through the service (sawtooth: failures halve, successes add)
+    for _ in range(1500 if thorough else 120):
+        out.append(big_limit_service(rng))
     # the same event machine over the Algorithm enum / builder / layer route (kind 7) and over Vegas (6, 8)
     for _ in range(3000 if thorough else 250):
         sc = rand_service(rng) if rng.random() < 0.6 else ext_feedback_service(rng)
@@ -622,6 +753,8 @@ def split_trace(s, t):
 
 def monitor_alg(s, t):
     kind, params, pre, progs, sched = parse(s)
+    if list(t) == [-5]:
+        return None     # workers completed calls without reaching the scheduler: atomics not instrumented
     sp = split_trace(s, t)
     if sp is None:
         return "malformed or panicking run: %s" % t[:12]
@@ -658,24 +791,23 @@ def monitor_alg(s, t):
     return None
 
 
-def unannounced_call(evs):
-    """a call() that is not directly preceded by a readiness check: a caller outside the Tower contract"""
-    return any(e[0] in (2, 8) and (k == 0 or evs[k - 1][0] != 1) for k, e in enumerate(evs))
-
-
 def monitor_svc(s, t):
     kind, params, evs, _, _ = parse(s)
+    panic_at = None
     if len(t) != 3 * len(evs) + 3:
-        if list(t) == [-999] and unannounced_call(evs):
-            # the property quantifies over callers that check readiness; an implementation that rejects (panics on)
-            # a call() without a preceding poll_ready is outside it -- the trace comparison reports the difference
-            return None
-        return "malformed or panicking run: %s" % t[:12]
+        # a panic escaping the limiter ends the trace with [-999, k]: it happened in event k, events before it
+        # are judged as usual
+        if len(t) >= 2 and t[-2] == -999 and 0 <= t[-1] < len(evs) and len(t) == 3 * t[-1] + 2:
+            panic_at = t[-1]
+            evs_all, evs = evs, evs[:panic_at]
+        else:
+            return "malformed or panicking run: %s" % t[:12]
     init, mn, mx = params[0], params[1], params[2]
     live = set()
     used = set()
     sent = {}
     inner = 0
+    parked = {}
     prev_inflight, prev_limit = 0, min(max(init, mn), mx)
     for k, e in enumerate(evs):
         op, a, b = e
@@ -683,7 +815,9 @@ def monitor_svc(s, t):
         r, infl, lim = t[3 * k:3 * k + 3]
         if not (mn <= lim <= mx):
             return "limit %d outside [%d, %d] after event %d" % (lim, mn, mx, k)
-        if op == 1:
+        if op in (1, 11):
+            if op == 11:
+                parked[a % 8] = {"at_limit": prev_inflight >= prev_limit and r in (10, 13), "ready": r == 11}
             if prev_inflight >= prev_limit:
                 if r not in (10, 13):
                     return "event %d: poll_ready returned %d with in_flight %d >= limit %d" % (k, r, prev_inflight, prev_limit)
@@ -692,6 +826,24 @@ def monitor_svc(s, t):
                 if r != want:
                     return "event %d: poll_ready returned %d with in_flight %d < limit %d and inner readiness %d" % (
                         k, r, prev_inflight, prev_limit, inner)
+        elif op == 12:
+            if r not in (90, 91):
+                return "event %d: wake query gave %d" % (k, r)
+            me = parked.get(a % 8)
+            if r == 90 and me is not None and me["at_limit"]:
+                # "never refuses readiness while fewer than limit calls are in flight": a caller parked by a
+                # refusal at the limit must learn that capacity is free. Its waker must have been woken once there
+                # is room for EVERY caller parked that way (callers admitted and not gone yet count as using a slot;
+                # an implementation that wakes one caller per freed slot is fine)
+                waiting = sum(1 for x in parked.values() if x["at_limit"])
+                holders = sum(1 for x in parked.values() if x["ready"])
+                if prev_limit - prev_inflight - holders >= waiting:
+                    return ("event %d: caller %d was refused at the limit and never woken although %d of %d slots "
+                            "are free (%d callers waiting)" % (k, a % 8, prev_limit - prev_inflight, prev_limit, waiting))
+        elif op == 13:
+            parked.pop(a % 8, None)
+            if r != 92:
+                return "event %d: departure of a parked caller gave %d" % (k, r)
         elif op == 2 or op == 8 or op not in (1, 3, 4, 5, 6, 7, 9, 10):
             if a in used:
                 if r != 21:
@@ -729,12 +881,21 @@ def monitor_svc(s, t):
         if infl != len(live):
             return "after event %d in_flight() = %d but %d calls are in flight (%s)" % (k, infl, len(live), sorted(live))
         prev_inflight, prev_limit = infl, lim
+    if panic_at is not None:
+        op, a, b = evs_all[panic_at]
+        announced = panic_at > 0 and evs_all[panic_at - 1][0] == 1 and t[3 * (panic_at - 1)] == 11
+        if op in (2, 8) and not announced:
+            # the property quantifies over callers that check readiness: an implementation that rejects (panics
+            # on) a call() not directly preceded by a poll_ready that returned Ready is outside it -- the trace
+            # comparison reports the difference
+            return None
+        return "the limiter panicked in event %d %s" % (panic_at, (op, a, b))
     r, infl, lim = t[-3:]
     if infl != 0:
         return "everything dropped, in_flight() = %d" % infl
     if not (mn <= lim <= mx):
         return "final limit %d outside [%d, %d]" % (lim, mn, mx)
-    if (lim > 0 and r != 11) or (lim == 0 and r != 13):
+    if (lim > 0 and r != 11) or (lim == 0 and r not in (10, 13)):
         return "idle service with limit %d: probe poll_ready returned %d" % (lim, r)
     return None
 
@@ -773,7 +934,10 @@ def monitor_clones(s, t):
         may explain the decision);
       * min <= limit() <= max after every step."""
     if list(t) == [-5]:
-        return "the service's in_flight/current_limit atomics are not instrumented on this tree" if REQUIRE_SERVICE_HOOK else None
+        # the driver could not schedule the workers (the service's atomics do not go through the instrumented
+        # wrappers on this tree): nothing to judge; with REQUIRE_SERVICE_HOOK the model still answers the script,
+        # so the difference is reported as a correspondence failure (no failing input is claimed)
+        return None
     kind, params, pre, progs, sched = parse(s)
     sp = split_clones(s, t)
     if sp is None:
@@ -934,6 +1098,8 @@ def classify(s, t):
             if c in codes[:-1]:
                 out.append(name)
         kind, params, evs, _, _ = parse(s)
+        if len(t) != 3 * len(evs) + 3:
+            return out + ["panicked_or_malformed"]
         lims = t[2::3]
         infl = t[1::3]
         for k, e in enumerate(evs):
@@ -945,6 +1111,14 @@ def classify(s, t):
                     out.append("ext_success_opens_readiness_with_calls_in_flight")
         if any(e[0] in (9, 10) for e in evs):
             out.append("external_feedback")
+        if any(e[0] == 11 for e in evs):
+            out.append("parked_callers")
+            if any(e[0] == 12 and codes[k] == 91 for k, e in enumerate(evs)):
+                out.append("parked_caller_woken")
+            if any(e[0] == 13 for e in evs):
+                out.append("parked_caller_departed")
+        if params[2] >= 1 << 59:
+            out.append("limits_around_semaphore_max")
         if any(b < a for a, b in zip(lims, lims[1:])):
             out.append("limit_decreased")
         if any(b > a for a, b in zip(lims, lims[1:])):
